@@ -37,7 +37,7 @@ Inductive label : Type :=
 
 (** Oracle inputs of a step (see above). *)
 Record oracle : Type := mkOracle { ok_adds : list Z; fee_ok : bool; est : Z; est1 : Z (* fee estimator readings of node 0 / node 1 *) }.
-Definition send_ok_of (o : oracle) (amt : Z) : bool := existsb (Z.eqb amt) (ok_adds o).
+Definition send_ok_of (o : oracle) (tag : Z) : bool := existsb (Z.eqb tag) (ok_adds o).
 
 Definition deliver_msg (o : oracle) (c : chan) (m : msg) : rres (chan * list msg) :=
   match m with
